@@ -35,9 +35,17 @@ def plan(tier):
 
 
 def check(pid, tier, seed):
-    return p_kani.check(pid, tier, seed, SPECS, plan(tier), FUNCS, {"names": 3, "history": "<= 4 definitions + 1 roll-back", "unwind": 8},
+    run = p_kani.check(pid, tier, seed, SPECS, plan(tier), FUNCS, {"names": 3, "history": "<= 4 definitions + 1 roll-back", "unwind": 8},
                         ASSUME, RULE, slots=3)
+    import p_visit_ob
+    p_visit_ob.obligations(run, ["GlobalSlotRecycler"])
+    return run
 
 
 def replay(pid, path):
+    import json
+    payload = json.load(open(path))
+    if payload.get("kind") == "trace":
+        import p_visit_ob
+        return p_visit_ob.replay(pid, payload, path)
     return p_kani.replay(pid, path)
